@@ -58,6 +58,24 @@ def run(prog, tier):
     consumers = c07.rng_consumers(prog)
     borrow(R, P, "SEED", prog, lambda r, p: c07.check_seed_order(r, p, res, consumers), floor=2)
     borrow(R, P, "SEED", prog, c07.check_seed_truthy, floor=1)
+    # sibling agreement: cnfgen and pbgen seed at the same points.  Both seed while the --seed option is parsed (before the graph
+    # arguments are built); a further random.seed() in only one of the two drivers restarts the stream between the graph and the
+    # formula in that tool alone, and the same seed gives different formulas in the two tools
+    import ast as _ast
+    from ..astutil import call_name as _cn
+    sites = {}
+    for tool in ("cnfgen", "pbgen"):
+        cli = prog.func("cnfgen.clitools." + tool, "cli")
+        sites[tool] = [c for c in _ast.walk(cli.node) if isinstance(c, _ast.Call) and (_cn(c) or "") in ("random.seed", "seed")]
+    if len(sites["cnfgen"]) == len(sites["pbgen"]):
+        R.ok("SEED-SIBLING", "cnfgen.cli and pbgen.cli seed the generator at the same points (%d explicit calls each besides the option's action)"
+             % len(sites["cnfgen"]), "cnfgen.clitools")
+    else:
+        tool = "pbgen" if len(sites["pbgen"]) > len(sites["cnfgen"]) else "cnfgen"
+        cli = prog.func("cnfgen.clitools." + tool, "cli")
+        R.bad(Finding(P, "SEED-SIBLING", cli, "%s.cli seeds the generator where the other tool does not" % tool,
+                      "`%s`: the two tools must consume the same random stream for the same seed; this tool restarts it after the graph "
+                      "arguments have been built" % _ast.unparse(sites[tool][0])[:60], node=sites[tool][0]))
     return R
 
 
